@@ -68,3 +68,7 @@ pub assume_specification [ <BoardId as core::cmp::PartialEq>::eq ] (a: &BoardId,
 // unit is on (BoardId, Adc32ChannelId), whose derived equalities are structural, so structural inequality is the meaning here.
 pub assume_specification<U: PartialEq, T: PartialEq> [ <(U, T) as core::cmp::PartialEq>::ne ] (x: &(U, T), y: &(U, T)) -> (r: bool)
     ensures r == (*x != *y);
+
+// Option::replace (core): stores the new value, returns what was there
+pub assume_specification<T> [ Option::<T>::replace ] (o: &mut Option<T>, v: T) -> (r: Option<T>)
+    ensures r == *old(o), *final(o) == Some(v);
